@@ -193,8 +193,23 @@ def check_direct_vs_cached(idx: Index, rep: Report) -> None:
     init = idx.func(UT, "SymbolTable.__init__")
     direct = idx.func(UT, "_lookup_symbol_in_direct_children")
     # same scope
-    scope_i = [unparse(s.value) for s in walk_local(init.node) if isinstance(s, ast.Assign) and unparse(s.targets[0]) == "block"]
-    scope_d = [unparse(s.value) for s in walk_local(direct.node) if isinstance(s, ast.Assign) and unparse(s.targets[0]) == "block"]
+    def _scopes(fi) -> list[str]:
+        """what `<X>.ops` iterations of the function range over, with local names resolved"""
+        c_ = CFG(fi.node)
+        out_ = []
+        iters_ = [(w_.iter, w_) for w_ in walk_local(fi.node) if isinstance(w_, ast.For)]
+        iters_ += [(g_.iter, n_) for n_ in ast.walk(fi.node) if isinstance(n_, (ast.GeneratorExp, ast.ListComp, ast.SetComp, ast.DictComp)) for g_ in n_.generators]
+        for it_, owner_ in iters_:
+            if isinstance(it_, ast.Attribute) and it_.attr == "ops":
+                try:
+                    at_ = c_.node_of(owner_)
+                except AnalysisError:
+                    continue
+                out_.append(resolved_text(c_, it_.value, at_))
+        return out_
+
+    scope_i = _scopes(init)
+    scope_d = _scopes(direct)
     norm = lambda s: s.replace("self._symbol_table_op", "OP").replace(direct.node.args.args[0].arg, "OP")
     if scope_i and scope_d and norm(scope_i[0]) == norm(scope_d[0]) == "OP.regions[0].blocks[0]":
         r.ok("scope", f"{init.loc} / {direct.loc}: both scan regions[0].blocks[0]")
